@@ -60,6 +60,9 @@ pub fn check_log(h: &Hist, info: &SchedInfo) -> Result<(bool, Vec<&'static str>)
             _ => {}
         }
     }
+    if let Some(s) = &info.starved {
+        return Err(failure("reply-starved-in-reboot-wait", format!("{s}: with the ping timers always due the control channel is never served"), h, Some((log.len().saturating_sub(30), log.len()))));
+    }
     let dropped_at = log.iter().position(|o| matches!(o, Op::MachineDropped));
     // exactly one reply each
     for (req, _, _) in &issue_at {
@@ -244,6 +247,9 @@ pub fn check_log(h: &Hist, info: &SchedInfo) -> Result<(bool, Vec<&'static str>)
         }
     }
     // scheduled operation continues after all handles are dropped
+    if info.steps.iter().any(|s| s.starts_with("ping storm")) {
+        classes.push("request_during_a_ping_storm_in_the_reboot_wait");
+    }
     if info.all_handles_dropped {
         classes.push("all_handles_dropped");
         if let Some(d) = log.iter().rposition(|o| matches!(o, Op::HandleDrop { .. })) {
@@ -283,7 +289,7 @@ pub fn check_log(h: &Hist, info: &SchedInfo) -> Result<(bool, Vec<&'static str>)
 }
 
 pub fn case(t: &mut Tape, ctx: &CaseCtx) -> CaseResult {
-    let p = SchedProfile { requests_w: 5, ..Default::default() };
+    let p = SchedProfile { requests_w: 5, ping_storm_w: 2, ..Default::default() };
     let (h, info) = run_scheduled(t, &p);
     let (nontrivial, classes) = check_log(&h, &info)?;
     Ok(CaseReport {
@@ -311,6 +317,7 @@ pub fn run(mut run: Run) -> i32 {
         RULE,
         300,
         &[
+            "ping storms: futures' select! picks among ready branches pseudo-randomly; a request that is ready together with an always-due ping timer is therefore served within a few rounds (64 pings in a row ahead of it has probability 2^-64, which is the false-alarm rate of the 'reply-starved' rule per storm)",
             "'arrived while ...' is read as any phase the machine was in between the request being issued and its reply being sent",
             "while a ping exchange or perform_reboot is in flight the run loop does not listen: replies are deferred until it completes",
             "both serialisations of a select! tie are accepted; replay executes a case several times in one thread",
